@@ -1912,6 +1912,7 @@ func (d *decoderCborBytes) kSlice(f *decFnInfo, rv reflect.Value) {
 	var rv9 reflect.Value
 
 	rvlen := rvLenSlice(rv)
+	rvlen0 := rvlen
 	rvcap := rvCapSlice(rv)
 	maxInitLen := d.maxInitLen()
 	hasLen := containerLenS >= 0
@@ -2005,7 +2006,8 @@ func (d *decoderCborBytes) kSlice(f *decFnInfo, rv reflect.Value) {
 		}
 
 		rv9 = rvArrayIndex(rv, j, f.ti, true)
-		if elemReset {
+		if elemReset || j >= rvlen0 {
+
 			rvSetZero(rv9)
 		}
 		if d.d.TryNil() {
@@ -5919,6 +5921,7 @@ func (d *decoderCborIO) kSlice(f *decFnInfo, rv reflect.Value) {
 	var rv9 reflect.Value
 
 	rvlen := rvLenSlice(rv)
+	rvlen0 := rvlen
 	rvcap := rvCapSlice(rv)
 	maxInitLen := d.maxInitLen()
 	hasLen := containerLenS >= 0
@@ -6012,7 +6015,8 @@ func (d *decoderCborIO) kSlice(f *decFnInfo, rv reflect.Value) {
 		}
 
 		rv9 = rvArrayIndex(rv, j, f.ti, true)
-		if elemReset {
+		if elemReset || j >= rvlen0 {
+
 			rvSetZero(rv9)
 		}
 		if d.d.TryNil() {
